@@ -13,7 +13,7 @@ import subprocess
 import time
 
 from vflib import core
-from vflib.core import Broken, finish, validate_trace
+from vflib.core import Broken, finish, validate_trace, binding_selftest
 
 
 def run_history(ctx, idx, nseq, nconc, hold_us, skip_every=3, damage=False):
@@ -105,6 +105,15 @@ def run(ctx):
         if not any(e["e"] == "CSEnter" for e in ev):
             raise Broken("no CSEnter event recorded: hooks are not compiled in / trace not written")
         v = validate_trace(ctx, "mfront/LockTrace", "LockTrace.cfg", ev, name="lock")
+        if v["accepted"] and not getattr(ctx, "binding_selftests", None):
+            def second_holder(e):
+                # a second process enters a section while the first one is inside
+                i = next((k for k, x in enumerate(e) if x["e"] == "CSEnter"), None)
+                if i is None:
+                    return False
+                other = max(x["p"] for x in e) + 1
+                e[i + 1:i + 1] = [{"e": "SemOpen", "p": other, "t": other, "a": 0, "b": -1, "c": -1}, {"e": "CSEnter", "p": other, "t": other, "a": 0, "b": -1, "c": -1}]
+            binding_selftest(ctx, "mfront/LockTrace", "LockTrace.cfg", ev, second_holder, "a recorded history with a second process entering an occupied section")
         ntr += 1
         nev += len(ev)
         if i == 0:
